@@ -249,6 +249,32 @@ func (x *c12exec) run(e common.Env, p *common.Part) *c12fail {
 				return fail("foreign-traffic-reached-backend/"+sig, what, false)
 			}
 			p.Count("foreign_sessions", 1)
+		case "keygen-duplicate":
+			// a second KeyGen at one node while a key generation is live there must be refused and must not disturb the first
+			x.pick(tss.DkgTopicName, x.nodes)
+			victim := x.nodes[rng.Intn(len(x.nodes))]
+			x.setHold("dkg.afterRBCRegister")
+			ctx, cancel := context.WithTimeout(context.Background(), x.dl(6000))
+			done := make(chan map[uint16]callRes, 1)
+			go func() {
+				done <- x.calls(x.nodes, func(u uint16) ([]byte, error) { return x.c.Schemes[u].KeyGen(ctx, h.N, h.N-1) })
+			}()
+			x.waitParked(h.N, x.dl(3000))
+			c2, cancel2 := context.WithTimeout(context.Background(), x.dl(300))
+			_, dupErr := x.c.Schemes[victim].KeyGen(c2, h.N, h.N-1)
+			cancel2()
+			x.release()
+			res := <-done
+			cancel()
+			if dupErr == nil {
+				return fail("duplicate-admitted", fmt.Sprintf("a second concurrent KeyGen was admitted at node %d", victim), false)
+			}
+			for u, r := range res {
+				if r.err != nil {
+					return fail("duplicate-disturbs-first", fmt.Sprintf("after a refused duplicate KeyGen at node %d the running key generation failed at node %d: %v", victim, u, r.err), timedOut(r.err))
+				}
+			}
+			p.Count("held_windows", 1)
 		case "keygen-missing-caller":
 			callers := x.nodes[:len(x.nodes)-1]
 			ctx, cancel := context.WithTimeout(context.Background(), x.dl(60))
@@ -549,7 +575,7 @@ func genC12(rng *rand.Rand, idx int, e common.Env) c12hist {
 				kinds = append(kinds, "keygen-ok", "keygen-with-foreign-traffic")
 			}
 		} else {
-			kinds = []string{"keygen-ok", "keygen-with-foreign-traffic", "keygen-missing-caller", "keygen-cancel", "keygen-cancel-held", "sign-ok", "sign-ok", "sign-too-few", "sign-cancel", "sign-cancel-held",
+			kinds = []string{"keygen-ok", "keygen-with-foreign-traffic", "keygen-duplicate", "keygen-missing-caller", "keygen-cancel", "keygen-cancel-held", "sign-ok", "sign-ok", "sign-too-few", "sign-cancel", "sign-cancel-held",
 				"sign-reuse-at-once", "sign-two-topics", "sign-duplicate", "late-replay", "sign-with-foreign-traffic"}
 		}
 		k := kinds[rng.Intn(len(kinds))]
